@@ -46,6 +46,10 @@ type ProxyOpts struct {
 	// and passes this very pointer on. Lets a scenario build several instances from one config value
 	// (a struct copy of a template, or the same object twice).
 	Base *forwarder.HTTPProxyConfig
+	// WrapListener, when set, replaces every listener of the proxy by what it returns for it (reached by
+	// reflection like OnAccept, applied before OnAccept's tap and before Run starts serving): lets a scenario
+	// script what Accept returns (see ScriptedListener).
+	WrapListener func(net.Listener) net.Listener
 }
 
 // ErrNoListenerTap: the proxy's listener slice could not be reached (field renamed or retyped).
@@ -65,6 +69,10 @@ func (t *tapListener) Accept() (net.Conn, error) {
 }
 
 func tapListeners(hp *forwarder.HTTPProxy, fn func(net.Conn)) (err error) {
+	return wrapListeners(hp, func(l net.Listener) net.Listener { return &tapListener{Listener: l, fn: fn} })
+}
+
+func wrapListeners(hp *forwarder.HTTPProxy, wrap func(net.Listener) net.Listener) (err error) {
 	defer func() {
 		if r := recover(); r != nil {
 			err = fmt.Errorf("%w: %v", ErrNoListenerTap, r)
@@ -79,7 +87,7 @@ func tapListeners(hp *forwarder.HTTPProxy, fn func(net.Conn)) (err error) {
 		return ErrNoListenerTap
 	}
 	for i := range ls { // shares the backing array with the proxy's slice
-		ls[i] = &tapListener{Listener: ls[i], fn: fn}
+		ls[i] = wrap(ls[i])
 	}
 	return nil
 }
@@ -147,6 +155,12 @@ func StartProxy(o ProxyOpts) (*Proxy, error) {
 	hp, err := forwarder.NewHTTPProxy(cfg, pr, cm, rt, lg, nil)
 	if err != nil {
 		return nil, fmt.Errorf("proxy: %w", err)
+	}
+	if o.WrapListener != nil {
+		if err := wrapListeners(hp, o.WrapListener); err != nil {
+			hp.Close()
+			return nil, err
+		}
 	}
 	if o.OnAccept != nil {
 		if err := tapListeners(hp, o.OnAccept); err != nil {
